@@ -73,6 +73,8 @@ func (mux *Mux) ServeHTTP(w http.ResponseWriter, r *http.Request) {
 		store.I = info
 	} else {
 		store.I = mux.routeNotFound
+		// drop names left by an earlier request and values captured by a partial match
+		store.P.K, store.P.V = nil, store.P.V[:0]
 	}
 	mux.relayHandler(store)
 
@@ -80,7 +82,7 @@ func (mux *Mux) ServeHTTP(w http.ResponseWriter, r *http.Request) {
 	store.W.Status = 0
 	store.R = nil
 	store.I = nil
-	store.P.V = store.P.V[:0]
+	store.P.K, store.P.V = nil, store.P.V[:0]
 	store.id = store.id[:9]
 	mux.storePool.Put(store)
 }
